@@ -261,11 +261,63 @@ def javac(text):
         shutil.rmtree(d, ignore_errors=True)
 
 
-def javac_many(texts, workers=12):
+SEP_DRIVER = """import javax.tools.*;
+import java.io.*;
+import java.nio.file.*;
+import java.util.*;
+public class SepCompile {
+  public static void main(String[] a) throws Exception {
+    JavaCompiler jc = ToolProvider.getSystemJavaCompiler();
+    for (String f : a) {
+      Path out = Files.createTempDirectory("sep");
+      ByteArrayOutputStream err = new ByteArrayOutputStream();
+      int rc = jc.run(null, err, err, "-nowarn", "-Xmaxerrs", "0", "-d", out.toString(), f);
+      System.out.println(f + "\t" + rc + "\t" + Base64.getEncoder().encodeToString(err.toByteArray()));
+    }
+  }
+}
+"""
+
+
+def javac_many(texts):
+    """[(exit status, diagnostics)] of javac for each text, every text compiled on its own (as
+    `Main.java` in a directory of its own) by ONE JVM through javax.tools: the same compiler as
+    the `javac` command, without a JVM start per file"""
+    import base64
     uniq = sorted(set(texts))
-    with ThreadPoolExecutor(workers) as ex:
-        res = dict(zip(uniq, ex.map(javac, uniq)))
-    return [res[t] for t in texts]
+    if not uniq:
+        return []
+    if len(uniq) == 1:
+        r = javac(uniq[0])
+        return [r for _ in texts]
+    d = tempfile.mkdtemp(prefix="c03jb_")
+    try:
+        paths = []
+        for i, t in enumerate(uniq):
+            os.makedirs(os.path.join(d, str(i)))
+            paths.append(os.path.join(d, str(i), "Main.java"))
+            with open(paths[-1], "w") as f:
+                f.write(t)
+        drv = os.path.join(d, "SepCompile.java")
+        with open(drv, "w") as f:
+            f.write(SEP_DRIVER)
+        try:
+            p = subprocess.run(["java", "-Djava.io.tmpdir=" + d, drv] + paths, stdout=subprocess.PIPE,
+                               stderr=subprocess.PIPE, text=True, timeout=900)
+        except subprocess.TimeoutExpired:
+            raise common.HarnessError("javac (batch) timeout")
+        res = {}
+        for line in p.stdout.splitlines():
+            parts = line.split("\t")
+            if len(parts) == 3 and parts[0] in paths:
+                i = paths.index(parts[0])
+                out = base64.b64decode(parts[2]).decode("utf-8", "replace")
+                res[uniq[i]] = (int(parts[1]), out[-8000:].replace(os.path.dirname(parts[0]) + "/", ""))
+        if p.returncode != 0 or len(res) != len(uniq):
+            raise common.HarnessError("javac (batch) failed: rc=%d %s" % (p.returncode, p.stderr[-400:]))
+        return [res[t] for t in texts]
+    finally:
+        shutil.rmtree(d, ignore_errors=True)
 
 
 def checker_available():
@@ -320,18 +372,33 @@ def make_specs(run, n, langs=LANGS, stages=("gen", "erase"), cap=60, base=None):
     return specs
 
 
-def run_budgeted(run, specs, budget_s, chunk=28):
-    """run_many in chunks until the wall-clock budget is used; yields the results chunk by chunk
-    (a thorough run never holds more than one chunk of exports in memory)"""
+def stream_results(run, specs, budget_s, workers=None):
+    """the real pipeline in a pool of forked workers; results are yielded in the order of `specs`
+    as they become available, until the wall-clock budget is used (the rest is counted)"""
+    import multiprocessing as mp
     t0 = time.time()
-    for i in range(0, len(specs), chunk):
-        if i and time.time() - t0 > budget_s:
-            run.cov["programs_skipped_for_budget"] = len(specs) - i
-            break
-        t1 = time.time()
-        res = pipeline.run_many(specs[i:i + chunk])
-        run.cov["time_pipeline_s"] = round(run.cov.get("time_pipeline_s", 0) + time.time() - t1, 1)
-        yield res
+    if len(specs) <= 2:
+        for sp in specs:
+            yield pipeline.run_one(sp)
+        return
+    workers = workers or min(12, max(1, (os.cpu_count() or 2) - 4))
+    ctx = mp.get_context("fork")   # spawn would re-import the main module in every worker
+    pool = ctx.Pool(workers, initializer=pipeline._worker_init, maxtasksperchild=50)
+    try:
+        it = pool.imap(pipeline.run_one, specs, chunksize=1)
+        for i in range(len(specs)):
+            left = budget_s - (time.time() - t0)
+            try:
+                if left <= 0:
+                    raise mp.TimeoutError()
+                r = it.next(timeout=left)
+            except mp.TimeoutError:
+                run.cov["programs_skipped_for_budget"] = len(specs) - i
+                break
+            yield r
+    finally:
+        pool.terminate()
+        pool.join()
 
 
 def spec_key(spec):
@@ -342,18 +409,18 @@ def spec_key(spec):
 MODEL_SEARCH_LIMIT = {"quick": 3000, "thorough": 40000}
 
 
-def check_graphs(run, r, tt, fns):
-    """(b) + (d) for the recorded functions of one program"""
-    reqs, meta = [], []
+def graph_requests(run, tt, fns):
+    """driver requests of (b) for the recorded functions of one program"""
+    reqs, meta, notes = [], [], []
     for fi, fn in enumerate(fns):
         if "nodes" not in fn:
-            run.tally("graphs", "too-big")
+            notes.append("too-big")
             continue
         if fn.get("partial"):
-            run.tally("graphs", "cut-off-inside")
+            notes.append("cut-off-inside")
         search = (not fn.get("partial")) and fn["n_combos"] <= MODEL_SEARCH_LIMIT[run.tier]
         if not search and not fn.get("partial"):
-            run.tally("graphs", "search-too-long-for-model")
+            notes.append("search-too-long-for-model")
         reqs.append({"op": "mut.pick", "tt": tt, "nodes": fn["nodes"], "edges": fn["edges"],
                      "omittable": fn["omittable"][:len(fn["singles"])] if fn.get("partial") else fn["omittable"],
                      "max": 500000, "queries": [q[1] for q in fn["combos"]], "search": search})
@@ -362,9 +429,11 @@ def check_graphs(run, r, tt, fns):
             reqs.append({"op": "mut.feasible", "tt": tt, "nodes": fn["nodes"], "edges": fn["edges"],
                          "combinations": [q[0] for q in fn["extra"]]})
             meta.append((fi, "extra", None))
-    if not reqs:
-        return
-    answers = common.run_driver(reqs)
+    return reqs, meta, notes
+
+
+def judge_graphs(run, r, fns, meta, reqs, answers):
+    """(b) + (d): model, implementation and reference on every recorded feasibility answer"""
     for (fi, what, search), rq, a in zip(meta, reqs, answers):
         fn = fns[fi]
         if "error" in a:
@@ -448,18 +517,14 @@ def judge(run, where, phase, comb, impl, model, ref, fn):
             run.violation(obj, signature="C03:model-disagrees:feasible", no_input=True)
 
 
-def check_program(run, r, have_checker):
-    """(a) for one pipeline result; returns the javac job or None"""
+def usable(r):
+    return "exception" not in r and "erase" in r.get("stages", {})
+
+
+def judge_diff(run, r, a):
+    """(a) for one pipeline result, given the driver's answer to mut.erasure_diff"""
     spec = r["spec"]
-    if "exception" in r:
-        run.tally("pipeline", "exception:" + r["exception"]["type"])
-        return None
-    if "erase" not in r["stages"]:
-        run.tally("pipeline", "cutoff:" + str(r.get("cutoff")))
-        return None
-    run.tally("pipeline", "ok" if "cutoff" not in r else "cutoff:" + str(r["cutoff"]))
     gen, er = r["stages"]["gen"], r["stages"]["erase"]
-    a = common.run_driver([{"op": "mut.erasure_diff", "before": gen["export"], "after": er["export"]}])[0]
     if "error" in a:
         raise common.HarnessError("mut.erasure_diff: " + a["error"])
     m = a["r"]
@@ -495,54 +560,35 @@ def check_program(run, r, have_checker):
         else:
             run.broken.append({"obligation": "erasureDiff vs by-value walk", "detail": obj})
             run.violation(obj, signature="C03:model-disagrees:erasure_diff", no_input=True)
-    return None
 
 
-def check_javac(run, results):
-    """(c) for the Java programs"""
-    jobs = []
-    for r in results:
-        if r["spec"]["lang"] != "java" or "erase" not in r.get("stages", {}) or "exception" in r:
-            continue
-        g, e = r["stages"]["gen"]["texts"]["java"], r["stages"]["erase"]["texts"]["java"]
-        jobs.append((r, g, e))
-    if not jobs:
+def judge_javac(run, r, jres):
+    """(c) for one Java program: `jres` = javac verdicts of the original and of the erased text"""
+    g, e = r["stages"]["gen"]["texts"]["java"], r["stages"]["erase"]["texts"]["java"]
+    (rc_g, out_g), (rc_e, out_e) = jres
+    run.tally("javac", "%s/%s%s" % ("orig-ok" if rc_g == 0 else "orig-rejected",
+                                   "erased-ok" if rc_e == 0 else "erased-rejected",
+                                   "" if g != e else "(same text)"))
+    run.count({"javac": [rc_g == 0, rc_e == 0], "changed": g != e, "spec": spec_key(r["spec"])}, nontrivial=g != e)
+    if rc_g == 0 and rc_e != 0:
+        sig = erased_java_shape(g, e, out_e)
+        run.violation({"spec": spec_key(r["spec"]), "what": "erased Java program rejected by javac",
+                       "javac": java_diag_lines(out_e)[:5], "javac_tail": out_e[-1500:]}, signature="C03:" + sig)
+
+
+def wt_ok(a):
+    return a["r"] is True or (isinstance(a["r"], dict) and a["r"].get("ok") is True)
+
+
+def judge_checker(run, r, a_e, a_g):
+    if "error" in a_e or "error" in a_g:
+        run.tally("check.wt", "driver-error")
         return
-    texts = [t for _, g, e in jobs for t in (g, e)]
-    res = javac_many(texts)
-    for i, (r, g, e) in enumerate(jobs):
-        (rc_g, out_g), (rc_e, out_e) = res[2 * i], res[2 * i + 1]
-        run.tally("javac", "%s/%s%s" % ("orig-ok" if rc_g == 0 else "orig-rejected",
-                                       "erased-ok" if rc_e == 0 else "erased-rejected",
-                                       "" if g != e else "(same text)"))
-        run.count({"javac": [rc_g == 0, rc_e == 0], "changed": g != e}, nontrivial=g != e)
-        if rc_g == 0 and rc_e != 0:
-            sig = erased_java_shape(g, e, out_e)
-            run.violation({"spec": spec_key(r["spec"]), "what": "erased Java program rejected by javac",
-                           "javac": java_diag_lines(out_e)[:5], "javac_tail": out_e[-1500:]}, signature="C03:" + sig)
-
-
-def check_with_checker(run, results):
-    reqs = []
-    idx = []
-    for r in results:
-        if "erase" not in r.get("stages", {}) or "exception" in r:
-            continue
-        reqs.append({"op": "check.wt", "mode": "infer", **r["stages"]["erase"]["export"]})
-        reqs.append({"op": "check.wt", **r["stages"]["gen"]["export"]})
-        idx.append(r)
-    ans = common.run_driver(reqs)
-    for i, r in enumerate(idx):
-        a_e, a_g = ans[2 * i], ans[2 * i + 1]
-        if "error" in a_e or "error" in a_g:
-            run.tally("check.wt", "driver-error")
-            continue
-        ok_e = a_e["r"] is True or (isinstance(a_e["r"], dict) and a_e["r"].get("ok") is True)
-        ok_g = a_g["r"] is True or (isinstance(a_g["r"], dict) and a_g["r"].get("ok") is True)
-        run.tally("check.wt", "%s/%s" % ("orig-ok" if ok_g else "orig-rejected", "erased-ok" if ok_e else "erased-rejected"))
-        if ok_g and not ok_e:
-            run.violation({"spec": spec_key(r["spec"]), "what": "erased program rejected by check.wt (inference mode)",
-                           "answer": a_e["r"]}, signature="C03:%s:erased:check.wt-rejects" % r["spec"]["lang"])
+    ok_e, ok_g = wt_ok(a_e), wt_ok(a_g)
+    run.tally("check.wt", "%s/%s" % ("orig-ok" if ok_g else "orig-rejected", "erased-ok" if ok_e else "erased-rejected"))
+    if ok_g and not ok_e:
+        run.violation({"spec": spec_key(r["spec"]), "what": "erased program rejected by check.wt (inference mode)",
+                       "answer": a_e["r"]}, signature="C03:%s:erased:check.wt-rejects" % r["spec"]["lang"])
 
 
 def small_streams(run):
@@ -559,31 +605,122 @@ def small_streams(run):
                       signature="C03:model-disagrees:combos", no_input=True)
 
 
-def run_all(run, specs, budget_s):
+def program_requests(run, r, have_checker):
+    """the driver requests of one program: the diff, the recorded graphs, the checker"""
+    gen, er = r["stages"]["gen"], r["stages"]["erase"]
+    reqs = [{"op": "mut.erasure_diff", "before": gen["export"], "after": er["export"]}]
+    p = r.get("plugins", {}).get("plugin_tda", {})
+    fns, meta, notes = [], [], []
+    if "erase" in p:
+        fns = p["erase"]["functions"]
+        greqs, meta, notes = graph_requests(run, p["erase"]["tt"], fns)
+        reqs += greqs
+    if have_checker:
+        reqs.append({"op": "check.wt", "mode": "infer", **er["export"]})
+        reqs.append({"op": "check.wt", **gen["export"]})
+    return {"reqs": reqs, "fns": fns, "meta": meta, "notes": notes}
+
+
+def batch_model(run, batch, have_checker):
+    """(worker thread) ONE driver process for all model requests of a batch of programs"""
+    t0 = time.time()
+    ws = [program_requests(run, r, have_checker) for r in batch]
+    answers = common.run_driver([q for w in ws for q in w["reqs"]])
+    i = 0
+    for w in ws:
+        w["answers"] = answers[i:i + len(w["reqs"])]
+        i += len(w["reqs"])
+    return ws, time.time() - t0
+
+
+def batch_javac(run, batch):
+    """(worker thread) ONE JVM for the Java texts of a batch: per program the verdicts of the
+    original and of the erased text"""
+    t0 = time.time()
+    texts, idx = [], []
+    for k, r in enumerate(batch):
+        gen, er = r["stages"]["gen"], r["stages"]["erase"]
+        if r["spec"]["lang"] == "java" and gen.get("texts") and er.get("texts"):
+            texts += [gen["texts"]["java"], er["texts"]["java"]]
+            idx.append(k)
+    res = javac_many(texts)
+    out = [None] * len(batch)
+    for j, k in enumerate(idx):
+        out[k] = (res[2 * j], res[2 * j + 1])
+    return out, time.time() - t0
+
+
+def judge_all(run, r, w, jres, have_checker):
+    n = 1 + len(w["meta"])
+    for note in w["notes"]:
+        run.tally("graphs", note)
+    judge_diff(run, r, w["answers"][0])
+    judge_graphs(run, r, w["fns"], w["meta"], w["reqs"][1:n], w["answers"][1:n])
+    if have_checker:
+        judge_checker(run, r, w["answers"][n], w["answers"][n + 1])
+    if jres is not None:
+        judge_javac(run, r, jres)
+
+
+def add_time(run, key, dt):
+    run.cov[key] = round(run.cov.get(key, 0) + dt, 1)
+
+
+def run_all(run, specs, budget_s, threads=3, batch_size=8, batch_wait=12):
+    """pipeline workers -> batches (threads: one driver process + one JVM per batch) -> judged
+    here, in the order of `specs`.  The budget bounds the consumption of pipeline results."""
     t0 = time.time()
     have_checker = checker_available()
     run.cov["check.wt_available"] = have_checker
     if not have_checker:
         run.assumptions.append("driver op check.wt not available: erased programs judged by javac (Java) only")
+    pending = []
     n = 0
-    for results in run_budgeted(run, specs, budget_s):
-        n += len(results)
-        t2 = time.time()
-        for r in results:
-            check_program(run, r, have_checker)
-            p = r.get("plugins", {}).get("plugin_tda", {})
-            if "error" in p:
-                raise common.HarnessError("plugin_tda failed: " + p["error"])
-            if "erase" in p and "exception" not in r:
-                check_graphs(run, r, p["erase"]["tt"], p["erase"]["functions"])
-        t1 = time.time()
-        run.cov["time_model_s"] = round(run.cov.get("time_model_s", 0) + t1 - t2, 1)
-        check_javac(run, results)
-        run.cov["time_javac_s"] = round(run.cov.get("time_javac_s", 0) + time.time() - t1, 1)
-        if have_checker:
-            check_with_checker(run, results)
-        run.log("%d programs checked at %.0fs" % (n, time.time() - t0))
+
+    def drain(limit):
+        while len(pending) > limit:
+            batch, fm, fj = pending.pop(0)
+            (ws, tm), (js, tj) = fm.result(), fj.result()
+            add_time(run, "time_model_s", tm)
+            add_time(run, "time_javac_s", tj)
+            t1 = time.time()
+            for r, w, jres in zip(batch, ws, js):
+                judge_all(run, r, w, jres, have_checker)
+            add_time(run, "time_judge_s", time.time() - t1)
+
+    with ThreadPoolExecutor(2 * threads) as ex:
+        cur, cur_t = [], time.time()
+
+        def flush():
+            nonlocal cur, cur_t
+            if cur:
+                pending.append((cur, ex.submit(batch_model, run, cur, have_checker), ex.submit(batch_javac, run, cur)))
+            cur, cur_t = [], time.time()
+
+        for r in stream_results(run, specs, budget_s):
+            n += 1
+            if "exception" in r:
+                run.tally("pipeline", "exception:" + r["exception"]["type"])
+            elif "erase" not in r["stages"]:
+                run.tally("pipeline", "cutoff:" + str(r.get("cutoff")))
+            else:
+                run.tally("pipeline", "ok" if "cutoff" not in r else "cutoff:" + str(r["cutoff"]))
+                p = r.get("plugins", {}).get("plugin_tda", {})
+                if "error" in p:
+                    raise common.HarnessError("plugin_tda failed: " + p["error"])
+                if not cur:
+                    cur_t = time.time()
+                cur.append(r)
+            if len(cur) >= batch_size or (cur and time.time() - cur_t > batch_wait):
+                flush()
+                drain(threads)
+            if n % 25 == 0:
+                run.log("%d programs through the pipeline at %.0fs" % (n, time.time() - t0))
+        flush()
+        run.cov["time_pipeline_wall_s"] = round(time.time() - t0, 1)
+        drain(0)
     run.cov["programs"] = n
+    run.log("%d programs checked at %.0fs" % (n, time.time() - t0))
 
 
 def check(run):
@@ -598,8 +735,8 @@ def check(run):
         for f in sorted(os.listdir(corpus)):
             specs.append(json.load(open(os.path.join(corpus, f)))["spec"])
     if run.tier == "quick":
-        specs += make_specs(run, 100, cap=60)
-        run_all(run, specs, budget_s=95)
+        specs += make_specs(run, 100, cap=40)
+        run_all(run, specs, budget_s=115)
     else:
         specs += make_specs(run, 4000, cap=60)
         run_all(run, specs, budget_s=1300)
